@@ -437,7 +437,7 @@ func runScenario(sc *Scenario, r *zsimrt.Rand, replay []zsimrt.Decision) *Outcom
 				continue
 			}
 			w.shared[i] = buildExpr(&sc.Shared[i])
-			w.fp[i] = takeFP(w.shared[i], !sc.Cold)
+			w.fp[i] = takeFP(w.shared[i], !sc.Cold && !sc.SimFirst)
 			w.fpSet[i] = true
 		}
 		var totalEst uint64
@@ -561,7 +561,7 @@ func runScenario(sc *Scenario, r *zsimrt.Rand, replay []zsimrt.Decision) *Outcom
 	}
 	ensureDrivers(sc.Cold)
 	ensureOpts(sc)
-	if sc.Cold {
+	if sc.Cold || sc.SimFirst {
 		sim()
 		ensureDrivers(false)
 		passA()
@@ -685,6 +685,12 @@ func runScenario(sc *Scenario, r *zsimrt.Rand, replay []zsimrt.Decision) *Outcom
 				out.Probes["calls_passing_a_caller_owned_option_slice"]++
 			}
 		}
+	}
+	if out.Stats.TooManyGo {
+		// the library had more goroutines alive at once than the simulator has task slots: the
+		// run was wound down half way; nothing in it is judged
+		out.Probes["runs_not_judged_too_many_library_goroutines_alive"]++
+		first = nil
 	}
 	if lp := zsimrt.TakeLibPanic(); lp != "" {
 		// a goroutine started by the library panicked: a production process would have died, in a
